@@ -159,26 +159,37 @@ def check_case(case):
 def _check_e2e(world, opts, events, real):
     v = []
     want = W.expected(world, opts, real=real)
-    own = {name: layer for name, layer, _lv, _m in W.flatten(world)}
+    info = {name: (layer, level, mod) for name, layer, level, mod in W.flatten(world)}
     ran = {}
     for _pid, name, _tsu, _up in W.executions(events):
-        ran.setdefault(own[name], []).append(name)
+        ran.setdefault(info[name][0], set()).add(name)
+    tp, lp, mp = W.test_patterns(opts), opts.get('layer') or [], \
+        W.module_patterns(opts)
+    arg = W.argv(opts, 'P')[3:]
     for layer in sorted(set(want) | set(ran)):
-        w, g = sorted(want.get(layer, [])), sorted(ran.get(layer, []))
-        if w == g:
-            continue
-        tp, lp = W.test_patterns(opts), opts.get('layer') or []
-        if not g or not w:
-            what = 'layer'
-            sig = _sign(lp) if lp else 'no-layer-filter'
-        else:
-            what, sig = 'test', _sign(tp)
-        v.append(('e2e:%s:%s:%s' % (
-            what, sig, 'missing' if len(g) < len(w) else 'extra'),
-            'layer %s ran %r, accepted are %r (argv %r)'
-            % (layer, g, w, W.argv(opts, 'P')[3:])))
+        w, g = set(want.get(layer, [])), ran.get(layer, set())
+        for n in sorted(g - w):
+            # ran although not accepted: which predicate says no?
+            test_ok = W.ref_accept(tp, n) and W.level_ok(info[n][1], opts)
+            mod_ok = not real or W.ref_accept(mp, info[n][2])
+            if not mod_ok:
+                key = 'e2e:module:%s:extra' % _sign(mp)
+            elif not test_ok:
+                key = 'e2e:test:%s:extra' % _sign(tp)
+            else:
+                key = 'e2e:layer:%s:extra' % (_sign(lp) if lp else 'unit-switch')
+            v.append((key, 'test %s of layer %s ran but is not accepted (argv %r)'
+                      % (n, layer, arg)))
+        for n in sorted(w - g):
+            # accepted but did not run: blame the layer filter only if the whole
+            # layer is missing and a layer filter was given
+            if not g and lp:
+                key = 'e2e:layer:%s:missing' % _sign(lp)
+            else:
+                key = 'e2e:test:%s:missing' % _sign(tp)
+            v.append((key, 'test %s of layer %s is accepted but did not run '
+                      '(argv %r)' % (n, layer, arg)))
     if real:
-        mp = W.module_patterns(opts)
         want_m = sorted(m['name'] for m in world['modules']
                         if W.ref_accept(mp, m['name']))
         got_m = sorted(n for _p, k, n in events if k == 'import')
@@ -186,7 +197,7 @@ def _check_e2e(world, opts, events, real):
             v.append(('e2e:module:%s:%s' % (
                 _sign(mp), 'missing' if len(got_m) < len(want_m) else 'extra'),
                 'modules imported %r, accepted are %r (argv %r)'
-                % (got_m, want_m, W.argv(opts, 'P')[3:])))
+                % (got_m, want_m, arg)))
     return v
 
 
